@@ -7,6 +7,8 @@ import TongoProofs.Lemmas.BitStringTopUp
 import TongoProofs.Lemmas.BitStringCell
 import TongoProofs.Lemmas.BitStringZOps
 import TongoProofs.Lemmas.CellSeqSim
+import TongoProofs.Lemmas.BitStringFiftParse
+import TongoGen.BitConsts
 /-! Property C06 — bit-string and cell read/write primitives behave like an ideal bit list.
 Property theorems only; helper lemmas live in `TongoProofs/Lemmas/BitString*.lean`.
 
@@ -358,7 +360,37 @@ theorem parsed_cell_inv (l : List Bool) (hl : l.length ≤ 1023) :
     (MCell.setTopUppedArray (toppedUp l) (l.length % 8 == 0)).2.cap = 1023 :=
   MCell.setTopUppedArray_inv l hl
 
+/-- `SetTopUppedArray(arr, false)` in general (not only canonical arrays): if the bits of `arr` are `l` followed by the
+tag `1` and at most six zeros, the result holds exactly `l`. -/
+theorem setTopUppedArray_tagged_spec (arr : List UInt8) (l : List Bool) (j : Nat) (hj : j ≤ 6)
+    (hb : bytesToBits arr = l ++ true :: List.replicate j false) (s0 : BitString) :
+    ∃ s', BitString.setTopUppedArray arr false s0 = (.ok (), s') ∧ s'.len = l.length ∧
+      (bytesToBits s'.buf).take s'.len = l :=
+  setTopUppedArray_tagged arr l j hj hb s0
+
+/-- the error path: a non-empty array whose last seven bits are all zero carries no completion tag and is rejected. -/
+theorem setTopUppedArray_rejects (arr : List UInt8) (s0 : BitString) (hne : arr ≠ [])
+    (hz : ∀ i, i < 7 → (bytesToBits arr)[8 * arr.length - 1 - i]? = some false) :
+    ∃ s', BitString.setTopUppedArray arr false s0 = (.err "incorrect topUppedArray", s') :=
+  setTopUppedArray_no_tag arr s0 hne hz
+
 /-! ## Fift hex -/
+
+/-- `fifthex_parse_spec`: `BitStringFromFiftHex` accepts exactly the language of `fiftParse` — hex digits of either case,
+optionally followed by one digit of the completion table (4 C c 2 6 A a E e 1 3 5 7 9 B b D d F f) and `_` — and
+returns exactly the bits that text denotes, in a bit string of that capacity satisfying the invariant; every other text
+(a non-hex character anywhere, `_` not at the end, a lone `_`, `8_`, `0_`, …) is rejected with an error. (Texts are
+lists of characters each standing for one byte; since the repair non-ASCII input is iterated byte-wise and rejected.) -/
+theorem fifthex_parse_spec (txt : List Char) :
+    (∀ l, fiftParse txt = some l → ∃ s', fromFiftHex txt = .ok s' ∧ abs s' = l ∧ Inv s' ∧ s'.cap = l.length) ∧
+    (fiftParse txt = none → ∃ e, fromFiftHex txt = .err e) :=
+  fromFiftHex_spec txt
+
+/-- tests on literals: lower case, completion digits, and malformed texts -/
+example : fiftParse "a5c_".toList = some [true, false, true, false, false, true, false, true, true] ∧
+    fiftParse "A5C_".toList = fiftParse "a5c_".toList ∧ fiftParse "".toList = some [] ∧
+    fiftParse "8_".toList = none ∧ fiftParse "_".toList = none ∧ fiftParse "A_5".toList = none ∧
+    fiftParse "0g".toList = none ∧ fiftParse "4__".toList = none := by decide +kernel
 
 /-- `ToFiftHex` returns the Fift hex text of the written bits: one upper-case hex digit per four bits; when the length is
 not a multiple of four, the last group is completed by `1 0…` and the text ends with `_`. It never panics or fails on a
@@ -500,6 +532,31 @@ theorem cell_nextRef_resets_child {β : Type} (I : BitsI β) (h : List (GCell β
     simp only [List.getElem?_set, hlt, if_true] at hch'
     cases hch'
     exact ⟨rfl, _, rfl⟩
+
+/-! ## Constants regenerated from the Go source (translator `BitConsts`) -/
+
+/-- tie: `CellBits`, the width limits and the byte-offset masks found in the current Go source are the ones the model is
+built on. The two fast-path limits are stated as the semantic bounds that make the fast paths correct — the shifted
+8-byte load of `ReadUint` needs `(limit − 1) + 7 ≤ 64`, the `WriteUint` path of `WriteUnary` needs `limit − 1 ≤ 64` —
+so a harmless change (`< 58`) passes and a harmful one (`< 59`, seeded defect C06-1) breaks this obligation. -/
+theorem gen_bit_constants :
+    Gen.BitConsts.cellBits = MCell.cellBits ∧ Gen.BitConsts.cellBits = CellSeq.cellBits ∧
+    Gen.BitConsts.readUintMaxBits = 64 ∧ Gen.BitConsts.readIntMaxBits = 64 ∧
+    Gen.BitConsts.readUintShiftLimit - 1 + 7 ≤ 64 ∧ Gen.BitConsts.writeUnaryFastLimit - 1 ≤ 64 ∧
+    Gen.BitConsts.binaryMasks.all (· == 7) = true := by decide
+
+/-- tie: every entry of the Go table `suffixToBits` is an entry of the model's table with the same bits … -/
+theorem gen_suffixToBits_sound :
+    Gen.BitConsts.suffixToBits.all (fun kv =>
+      match kv.1.toList with
+      | [c, '_'] => suffixToBits c == Bits.ofBinString? kv.2 && (suffixToBits c).isSome
+      | _ => false) = true := by decide +kernel
+
+/-- … and the model's table has no entry the Go table lacks. -/
+theorem gen_suffixToBits_complete (c : Char) (e : List Bool) (h : suffixToBits c = some e) :
+    (String.ofList [c, '_'], Bits.toBinString e) ∈ Gen.BitConsts.suffixToBits := by
+  unfold suffixToBits at h
+  split at h <;> first | (cases h; decide +kernel) | cases h
 
 /-! ## Witnesses of the repaired defects (each replayed on the Go code: corpus/C06/defects.ops) -/
 
